@@ -139,6 +139,7 @@ class Interp:
         self.sym_types = dict(sym_types or {})
         self.unmodelled = set()
         self._promoted = {}
+        self.index_vals = []  # abstract values used in built-in index projections: path element "[#k]"
         self.ret_info = {}   # "ret:<bb>" -> (callee, arg values) of unmodelled calls
         self.unwrap_src = {} # "unwrap:<bb>"/"tryok:<bb>" -> the Option/Result symbol it was taken from
         self.op_info = {}    # "op:..."   -> (op, a, b) of opaque comparisons
@@ -185,8 +186,13 @@ class Interp:
                     path = path + (("f", e["field"]),)
                 elif "downcast" in e:
                     path = path + (("dc", e["downcast"]),)
-                elif "index" in e or "constidx" in e:
-                    path = path + (("f", "[]"),)
+                elif "index" in e:
+                    iv = self.resolve(st, self._read(st, (("L", e["index"]),)))
+                    if iv not in self.index_vals:
+                        self.index_vals.append(iv)
+                    path = path + (("f", "[#%d]" % self.index_vals.index(iv)),)
+                elif "constidx" in e:
+                    path = path + (("f", "[%d]" % e["constidx"]),)
                 elif "subslice_from" in e:
                     path = path + (("f", "[..]"),)
                 else:
@@ -863,7 +869,7 @@ class Interp:
                 for s2, rv in res:
                     if s2 is st:
                         s2 = st.fork()
-                    s2.trace = s2.trace + (("call", bb, name, tuple(args), t["dest"]["local"]),)
+                    s2.trace = s2.trace + (("call", bb, name, tuple(args), t["dest"]["local"], rv),)
                     outs.append((s2, rv))
                 return outs
         # unmodelled: havoc &mut arguments (only what the callee's summary says it may write, when the
